@@ -53,6 +53,11 @@ SERVER_INFO = {
     # stream 1 open; a PING was queued, five bytes of it were read with data_to_send(5), then the application discarded the
     # rest with clear_outbound_data_buffer(): the GOAWAY of the next connection error must come out whole all the same
     "output-partly-read-then-cleared": (1, 1, None, 3),
+    # streams 1 and 3 were opened, 1 has ended both ways and is still in the stream table; then our MAX_CONCURRENT_STREAMS was
+    # lowered to 1 and acknowledged: the connection is exactly at its limit, which changes nothing about a frame on stream 1
+    "ended-at-limit": (3, 3, 1, None),      # (no fresh stream: opening one is over the limit, a second violation)
+    # MAX_HEADER_LIST_SIZE changed twice in a row (100, then back to 65536); the peer has acknowledged the first change only
+    "mhls-100-acked-65536-pending": (0, None, None, 1),
 }
 CLIENT_INFO = {
     "fresh": (0, None, None, None), "handshaken": (0, None, None, None),
@@ -125,6 +130,22 @@ def _build_extra(client, name, cfg):
         assert len(h.conn.data_to_send(5)) == 5
         h.conn.clear_outbound_data_buffer()
         return h.conn
+    if name == "ended-at-limit":
+        h = H.Solo(False, **dict(cfg))
+        for o in (h.rx([wire.settings([], ack=True)]), h.rx([wire.headers(1, sb(H.REQ), es=True)]), h.rx([wire.headers(3, sb(H.REQ_POST))]),
+                  h.api("send_headers", 1, H.ni(H.RESP), end_stream=True),
+                  h.api("update_settings", {wire.S_MAX_CONCURRENT_STREAMS: 1}), h.rx([wire.settings([], ack=True)])):
+            assert o.kind == "ok", o.brief()
+        assert 1 in h.conn.streams
+        h.conn.data_to_send()
+        return h.conn
+    if name == "mhls-100-acked-65536-pending":
+        h = H.Solo(False, **dict(cfg))
+        for o in (h.rx([wire.settings([], ack=True)]), h.api("update_settings", {wire.S_MAX_HEADER_LIST_SIZE: 100}),
+                  h.api("update_settings", {wire.S_MAX_HEADER_LIST_SIZE: 65536}), h.rx([wire.settings([], ack=True)])):
+            assert o.kind == "ok", o.brief()
+        h.conn.data_to_send()
+        return h.conn
     if name == "refused-opens":
         h = H.Solo(False, **dict(cfg))
         o = h.rx([wire.headers(1, sb(H.REQ_POST))])
@@ -183,6 +204,11 @@ def templates(client, state):
     if state == "mfs-lowering-pending":
         # the lowered limit binds from its acknowledgement on, also for a frame that follows the ACK in the same chunk
         add("oversize-data-right-after-lowering-ack", [FSE], wire.settings([], ack=True), wire.raw(wire.DATA, 0, 1, b"\0" * 20000))
+    if state == "mhls-100-acked-65536-pending":
+        # the ACKNOWLEDGED limit (100) binds, not the one still in flight: a request of ordinary size is over it
+        add("header-list-over-acknowledged-limit", [EYC], wire.headers(1, sb(H.REQ + [(b"x-fill", b"v" * 300)])))
+        add("header-list-over-acknowledged-limit", [EYC], wire.headers(1, sb(H.REQ + [(b"x-fill", b"v" * 300)]), es=True))
+        return T        # (every header block of the general catalogue is over a limit of 100 too: nothing to learn from them here)
     if state == "reserved-local":
         # a window violation through SETTINGS on a stream that is only reserved: its window was raised to 2^31-1, then the
         # peer raises INITIAL_WINDOW_SIZE
@@ -319,7 +345,7 @@ def deliver(blob, client, state, items, mode):
 
 
 MUST_BE_CONNECTION_ERROR = {"oversize-data-right-after-lowering-ack", "iws-overflows-reserved-stream",
-                            "push-promise-on-stream-the-peer-reset"}
+                            "push-promise-on-stream-the-peer-reset", "header-list-over-acknowledged-limit"}
 
 
 def judge(o, client, state, name, codes, hi, opening_sids, viols, outcomes, family, case):
